@@ -128,9 +128,9 @@ def c20(c):
     quick = c.tier == 'quick'
     _exhaustive(c, ['quick-checks.cfg', 'quick-time.cfg'] if quick else ['thorough-checks.cfg', 'thorough-time.cfg', 'thorough-modes.cfg'])
     binp = c.go_build('mapbroker')
-    _replay(c, binp, 200 if quick else 2500)
+    _replay(c, binp, 200 if quick else 1500)
     if not quick:
-        _trace(c, binp, 400)
+        _trace(c, binp, 300)
     c.cov['rule'] = ('behaviours: TLC -simulate of MapBrokerSim (slots + state hash; aimed slots for CAS hits and for publishes where two or three '
                      'checks would each suppress), replayed on ONE real MemoryMapBroker with its sweeper goroutines running, 1 tick = 1 s; compared '
                      'before and after every operation: result, read-only snapshot of the channel, event-handler calls. non-trivial = completed '
@@ -147,7 +147,7 @@ def c21(c):
     res = c.harness(binp, 'pages', states, timeout=600)
     _take(c, res, 'pages')
     _exhaustive(c, ['quick-checks.cfg'] if quick else ['thorough-checks.cfg'])
-    _replay(c, binp, 100 if quick else 1500)
+    _replay(c, binp, 100 if quick else 1000)
     c.cov['rule'] = ('table: every key set over {a,b,c,d} x every score assignment (quick: scores {min int64, 0, max int64}, thorough: {min, -1, 0, 1, max}; '
                      'ties included) for ordered channels and every key set for unordered ones; per state all page sizes 1..5 x both directions walked '
                      'to the end on the real broker, every page and cursor compared with the transcription, the concatenation with the independent '
@@ -160,10 +160,10 @@ def c24(c):
     quick = c.tier == 'quick'
     _exhaustive(c, ['quick-time.cfg'] if quick else ['thorough-time.cfg', 'thorough-race.cfg'])
     binp = c.go_build('mapbroker')
-    _expiry(c, binp, 160 if quick else 2000)
-    _replay(c, binp, 100 if quick else 1500)
+    _expiry(c, binp, 160 if quick else 1200)
+    _replay(c, binp, 100 if quick else 1000)
     if not quick:
-        _trace(c, binp, 400)
+        _trace(c, binp, 300)
     c.cov['rule'] = ('expiry: TLC -simulate of MapBrokerSim with Manual=TRUE; one broker per behaviour built without its cleanup goroutines, the harness '
                      'calls expireKeysIteration and parks it between phase 1 and phase 2 (the event-handler call for a decoy channel whose key expires '
                      'first), runs the model\'s operations in the window, then lets phase 2 finish; removal broadcasts, stream and state compared. '
